@@ -52,10 +52,9 @@ theorem item_balanced (k : Str) (v : PVal) (hk : validToken k = true) :
 
 /-- The values of one parameter: join-and-split returns the list item by item, unquoted.
     (`qJoin xs = []` only for `xs = [[]]`, see `param_vals_empty`.) -/
-theorem param_vals_roundtrip (xs : List Str) (hne : xs ≠ []) (hd : ∀ x ∈ xs, ValueOk x) (hq : qJoin xs ≠ []) :
-    parseParamVals false (qSplit (qJoin xs) ',') = some xs := by
-  have _ := hne
-  exact parse_qJoin xs hd hq
+theorem param_vals_roundtrip (xs : List Str) (_hne : xs ≠ []) (hd : ∀ x ∈ xs, ValueOk x) (hq : qJoin xs ≠ []) :
+    parseParamVals false (qSplit (qJoin xs) ',') = some xs :=
+  parse_qJoin xs hd hq
 
 /-- The one list whose text is empty. -/
 theorem param_vals_empty (xs : List Str) (hne : xs ≠ []) (hq : qJoin xs = []) : xs = [[]] :=
